@@ -337,6 +337,33 @@ func endScenarios(tier string) []*Scenario {
 		extra: expectOracle([][]string{{`["k" "a"]`, "nil", "+PONG"}, {":1"}, {":1"}})})
 	add(&linScenario{name: "cycle/unblock-then-kill-unaffected", threads: [][][]string{T([]string{"BLPOP", "k", "0"}, []string{"BLPOP", "k", "0"}), W("CLIENT", "UNBLOCK", "$id0"), W("CLIENT", "KILL", "ID", "$id0"), W("LPUSH", "k", "a"), W("LPOP", "k")}, phases: []int{0, 1, 2, 3, 4},
 		extra: expectOracle([][]string{{"nil", "-*"}, {":1"}, {":1"}, {":1"}, {`"a"`}})})
+	// (d') a block with a timeout that ended EARLY (served, unblocked) leaves no timer behind: the connection idles
+	// past the old deadline, and its next block waits its own full time (a seeded change of wave 6 reused one
+	// timer per connection and found the old tick in it)
+	for _, first := range [][]string{{"BLPOP", "k", "1"}, {"BLMOVE", "k", "m", "LEFT", "LEFT", "1"}, {"BLMPOP", "1", "1", "k", "LEFT"}} {
+		served := `["k" "a"]`
+		switch first[0] {
+		case "BLMOVE":
+			served = `"a"`
+		case "BLMPOP":
+			served = `["k" ["a"]]`
+		}
+		add(&linScenario{name: "cycle/" + first[0] + "-served-early|idle|block-forever", threads: [][][]string{T(first, []string{"BLPOP", "k2", "0"}), W("RPUSH", "k", "a")}, sleepBefore: map[[2]int]int{{1, 0}: 100, {0, 1}: 2000}, noLin: true,
+			extra: expectOracle([][]string{{served, "(blocked)"}, {":1"}})})
+		add(&linScenario{name: "cycle/" + first[0] + "-served-early|idle|block-5s", threads: [][][]string{T(first, []string{"BRPOP", "k2", "5"}, []string{"PING"}), W("RPUSH", "k", "a")}, sleepBefore: map[[2]int]int{{1, 0}: 100, {0, 1}: 2000}, noLin: true,
+			extra: func(ls *linScenario, x *Exec, per [][]*Call) [][2]string {
+				if len(per[0]) < 2 {
+					return [][2]string{{"second-block-never-ends", "the second block (5 s) of the connection never ended"}}
+				}
+				c := per[0][1]
+				if el := c.TRet - c.TInv; el < 4999 || el > 5001 || c.Reply.K != vm.KNil {
+					return [][2]string{{"second-block-duration", fmt.Sprintf("the second block of the connection (timeout 5 s, issued 1 s after the deadline of the first, which had been served early) ended after %d ms with %s", el, c.Reply.String())}}
+				}
+				return nil
+			}})
+	}
+	add(&linScenario{name: "cycle/unblocked-early|idle|block-forever", threads: [][][]string{T([]string{"BLPOP", "k", "1"}, []string{"BLPOP", "k2", "0"}), W("CLIENT", "UNBLOCK", "$id0")}, sleepBefore: map[[2]int]int{{1, 0}: 100, {0, 1}: 2000}, noLin: true,
+		extra: expectOracle([][]string{{"nil", "(blocked)"}, {":1"}})})
 	// (e) inside MULTI blocking commands never block
 	add(&linScenario{name: "multi/blocking-commands-do-not-block", threads: [][][]string{T([]string{"MULTI"}, []string{"BLPOP", "k", "0"}, []string{"BRPOP", "k", "0"}, []string{"BLMOVE", "k", "m", "LEFT", "LEFT", "0"}, []string{"BRPOPLPUSH", "k", "m", "0"}, []string{"BLMPOP", "0", "1", "k", "LEFT"}, []string{"EXEC"}, []string{"PING"})}})
 	// the same with the database changed before or inside the transaction, with and without a timeout
